@@ -206,6 +206,20 @@ def _run_case(task):
         ests.append({'customest3': custom_est3})
     data = table
     try:
+        if extra == 'name-reuse':
+            # an earlier, unrelated over_time call of the same process used
+            # the same custom names for OTHER functions: nothing of it may
+            # survive into this call
+            t0, _, _ = build_table(seed, 1, (0,), tkey)
+            with gc.quiet():
+                atime.over_time(
+                    t0, fd, vars=[{'custom': lambda rel: 5.0 * rel['alpha'],
+                                   'custom2': lambda rel: rel['gammadet']
+                                   + 1.0}],
+                    estimates=[{'customest': lambda a: 7.0 + a[0, 0, 0],
+                                'customest2': lambda a: -a[1, 1, 1]},
+                               {'customest3': lambda a: 2.0 * a[2, 2, 2]}],
+                    verbose=False, **KW)
         with gc.quiet():
             for block in partition:
                 vars_ = [v for v in block if v not in CUSTOM_VARS]
@@ -299,6 +313,8 @@ def main(tier):
     for nsteps in (1, 3):
         tasks.append((seed, nsteps, tuple(range(nsteps))[::-1], 'it',
                       parts[0], 'all-estimators'))
+    for part in few:
+        tasks.append((seed, 3, (0, 2, 1), 'it', part, 'name-reuse'))
     for part in ordered_partitions(VARS_C, 3):
         tasks.append((seed, 3, (2, 0, 1), 'it', part, 'components'))
     # a custom variable built from a column aurel has no name for
@@ -308,7 +324,15 @@ def main(tier):
     # 'DDalpha', 'gammadown3' in 'gammadown3_bssnok', 'Kdown3'...)
     for part in ordered_partitions(VARS_N, 3):
         tasks.append((seed, 3, (1, 2, 0), 'it', part, 'name-collision'))
-    results = runner.pmap(run_case, tasks, chunksize=4)
+    # the 'name-reuse' histories each need a process in which over_time has
+    # not run before (module-level state would otherwise already hold the
+    # names): one fresh child per task; everything else in the pool
+    results = [runner.in_child(run_case, t) if t[5] == 'name-reuse' else None
+               for t in tasks]
+    rest = [i for i, t in enumerate(tasks) if t[5] != 'name-reuse']
+    for i, r in zip(rest, runner.pmap(run_case, [tasks[i] for i in rest],
+                                      chunksize=4)):
+        results[i] = r
     nviol = 0
     for t, r in zip(tasks, results):
         _, nsteps, perm, tkey, part, extra = t
